@@ -254,7 +254,8 @@ fn gen_conditions(ctx: &mut Ctx) -> Result<String, String> {
     if !wraps { return Err("key.rs load_entry: error arm is not `Err(Error::new(id, err))`".into()); }
     let any = ctx.file("src/anycache.rs")?.clone();
     let aa = find_fn(&any, "CacheExt", "add_any")?;
-    let m2 = if squash(aa.block).contains("CacheEntry::new(asset,id,||self._has_reloader())") { "hasReloader" } else { return Err("add_any: CacheEntry::new call not recognised".into()) };
+    let aab = squash(aa.block);
+    let m2 = if aab.contains("CacheEntry::new(asset,id,||self._has_reloader())") { "hasReloader" } else if aab.contains("CacheEntry::new(asset,id,||false)") { "false" } else { return Err("add_any: CacheEntry::new call not recognised".into()) };
     let ihr = find_fn(&any, "AnyCache", "is_hot_reloaded")?;
     if squash(ihr.block) != "{self.cache._has_reloader()}" { return Err("AnyCache::is_hot_reloaded: unexpected body".into()); }
     out.push_str(&format!("/-- entries created by a load: `CacheEntry::new(asset, id, || cache.is_hot_reloaded())` -/\ndef loadedEntryDynamic (typeHot hasReloader : Bool) : Bool := entryDynamic typeHot {m1}\n\n"));
@@ -283,9 +284,42 @@ fn gen_conditions(ctx: &mut Ctx) -> Result<String, String> {
     out.push_str("/-- look-ups (`get_cached_entry_inner`, `load_owned_entry`) record an asset dependency, and\n`load_and_record` opens a recording frame, iff the type is hot-reloaded and the cache has a reloader -/\ndef recordsAsset (typeHot hasReloader : Bool) : Bool := typeHot && hasReloader\n\n");
     // load_and_record registers only on success
     let lar = squash(find_fn(&asset, "", "load_and_record")?.block);
-    let reg_ok = lar.contains("ifentry.is_ok(){reloader.add_asset(id,deps,typ);}returnentry;");
-    if !reg_ok { return Err("load_and_record: `if entry.is_ok() { reloader.add_asset(..) } return entry;` not found".into()); }
+    let to_parent = if lar.contains("ifentry.is_ok(){reloader.add_asset(id,deps,typ);}returnentry;") { false }
+        else if lar.contains("ifentry.is_ok(){reloader.add_asset(id,deps,typ);}else{crate::hot_reloading::records::add_records(reloader,&deps);}returnentry;") { true }
+        else { return Err("load_and_record: `if entry.is_ok() { reloader.add_asset(..) } [else { records::add_records(reloader, &deps) }] return entry;` not found".into()) };
     out.push_str("/-- `load_and_record` tells the reloader about an asset only when its load succeeded -/\ndef registersOnlyOnOk : Bool := true\n\n");
+    out.push_str(&format!("/-- what a failed (hot, recorded) load read is handed to the enclosing record (`records::add_records`) -/\ndef failedLoadRecordsToParent : Bool := {to_parent}\n\n"));
+    if to_parent {
+        let rec = ctx.file("src/hot_reloading/records.rs")?.clone();
+        let ar = squash(find_fn(&rec, "", "add_records")?.block);
+        if !ar.contains("ifrecorder.reloader==reloader{recorder.records.0.extend(deps.iter().cloned());}") { return Err("records::add_records: unexpected body".into()); }
+    }
+    // Record::insert_*: every insertion is guarded by the identity of the reloader
+    {
+        let rec = ctx.file("src/hot_reloading/records.rs")?.clone();
+        for m in ["insert_asset", "insert_file", "insert_dir"] {
+            let b = squash(find_fn(&rec, "Record", m)?.block);
+            if !(b.starts_with("{ifself.reloader==reloader{self.records.0.insert(") && b.ends_with(");}}")) { return Err(format!("Record::{m}: not guarded by `if self.reloader == reloader`: `{b}`")); }
+        }
+        out.push_str("/-- `Record::insert_{asset,file,dir}` record only for the reloader that installed the record -/\ndef recordChecksReloaderIdentity : Bool := true\n\n");
+    }
+    // reload_untyped / DepsGraph::reload
+    let ru = squash(find_fn(&any, "AnyCache", "reload_untyped")?.block);
+    let skips_static = ru.contains("if!handle.is_dynamic(){returnNone;}");
+    let keeps_new = if ru.contains("Err(err)=>{log::warn!(\"Errorreloading\\\"{}\\\":{}\",err.id(),err.reason());None}") { false }
+        else if ru.contains("Some((deps,true))") && ru.contains("Some((deps,false))") { true }
+        else { return Err("reload_untyped: result arms not recognised".into()) };
+    let catches_panic = ru.contains("catch_unwind");
+    let dg = ctx.file("src/hot_reloading/dependencies.rs")?.clone();
+    let rl = squash(find_fn(&dg, "DepsGraph", "reload")?.block);
+    if keeps_new {
+        if !rl.contains("Some((new_deps,true))=>self.insert(Dependency::Asset(key),new_deps,typ),") || !rl.contains("Some((new_deps,false))=>self.add_deps(Dependency::Asset(key),new_deps),") { return Err("DepsGraph::reload: arms not recognised".into()); }
+        let ad = squash(find_fn(&dg, "DepsGraph", "add_deps")?.block);
+        if ad != "{forkeyindeps.iter(){letentry=self.0.entry(key.clone()).or_default();entry.rdeps.insert(asset_key.clone());}ifletSome(entry)=self.0.get_mut(&asset_key){entry.deps.extend(&deps);}}" { return Err(format!("DepsGraph::add_deps: unexpected body `{ad}`")); }
+    } else if !rl.contains("ifletSome(new_deps)=new_deps{self.insert(Dependency::Asset(key),new_deps,typ);}") { return Err("DepsGraph::reload: body not recognised".into()); }
+    out.push_str(&format!("/-- `reload_untyped` leaves entries without lock (never-reloaded values) alone instead of writing to them -/\ndef reloadSkipsStatic : Bool := {skips_static}\n\n"));
+    out.push_str(&format!("/-- after a failed reload the graph keeps the old dependencies and adds what the failed attempt read -/\ndef failedReloadKeepsNewDeps : Bool := {keeps_new}\n\n"));
+    out.push_str(&format!("/-- a loader panic during a reload is caught (the reloader thread survives and answers) -/\ndef reloadCatchesPanic : Bool := {catches_panic}\n\n"));
     // Cache::read / read_dir: record before reading, iff reloader
     let rd = squash(find_fn(&any, "Cache for T", "read")?.block);
     if rd != "{#[cfg(feature=\"hot-reloading\")]ifletSome(reloader)=self.reloader(){records::add_file_record(reloader,id,ext);}self.get_source().read(id,ext)}" { return Err(format!("Cache::read: unexpected body `{rd}`")); }
@@ -363,6 +397,50 @@ fn gen_shards(ctx: &mut Ctx) -> Result<String, String> {
     Ok(out)
 }
 
+// ------------------------------------------------------------------ type-erasure casts (src/entry.rs)
+
+fn gen_casts(ctx: &mut Ctx) -> Result<String, String> {
+    let file = ctx.file("src/entry.rs")?.clone();
+    let src = std::fs::read_to_string(ctx.repo.join("src/entry.rs")).map_err(|e| e.to_string())?;
+    let is_ = squash(find_fn(&file, "UntypedEntry", "is")?.block);
+    let is_ok = is_ == "{self.type_id==TypeId::of::<T>()}";
+    let dr = squash(find_fn(&file, "UntypedEntry", "downcast_ref")?.block);
+    let dr_ok = dr == "{ifself.is::<T>(){unsafe{Some(&*(selfas*constSelfas*constEntryStorage<T>))}}else{None}}";
+    let db = squash(find_fn(&file, "UntypedEntry", "downcast")?.block);
+    let db_ok = db == "{ifself.is::<T>(){unsafe{Ok(Box::from_raw(Box::into_raw(self)as*mutEntryStorage<T>))}}else{Err(self)}}";
+    let wr = squash(find_fn(&file, "UntypedEntry", "write")?.block);
+    let wr_ok = wr.starts_with("{assert!(self.type_id==value.0.type_id);");
+    // the type id stored in an entry is the one of the value it was created with
+    let ns = squash(find_fn(&file, "Entry", "new_static")?.block);
+    let nd = squash(find_fn(&file, "Entry", "new_dynamic")?.block);
+    let tid_ok = ns.contains("type_id:TypeId::of::<T>(),") && nd.contains("type_id:TypeId::of::<T>(),");
+    // every reinterpretation of an untyped entry as `EntryStorage<T>` is one of the two guarded sites
+    let compact: String = src.chars().filter(|c| !c.is_whitespace()).collect();
+    let n_casts = compact.matches("as*constEntryStorage<T>").count() + compact.matches("as*mutEntryStorage<T>").count();
+    // the public accessors go through them
+    let uh = squash(find_fn(&file, "UntypedHandle", "downcast_ref")?.block);
+    let uh_ok = uh == "{letentry=self.inner.downcast_ref()?;Some(entry.handle())}";
+    let ii = squash(find_fn(&file, "CacheEntry", "into_inner")?.block);
+    let ii_ok = ii == "{ifletOk(storage)=self.0.downcast(){return(storage.value.into_inner(),storage.id);}wrong_handle_type()}";
+    Ok(format!(
+"/-- `UntypedEntry::is::<T>` compares the stored `TypeId` with `TypeId::of::<T>()` -/
+def isComparesTypeId : Bool := {is_ok}
+/-- `new_static` / `new_dynamic` store `TypeId::of::<T>()` of the value they are given -/
+def entryStoresOwnTypeId : Bool := {tid_ok}
+/-- `downcast_ref` reinterprets the entry only under `if self.is::<T>()`, else `None` -/
+def downcastRefGuarded : Bool := {dr_ok}
+/-- `downcast` (owned) reinterprets the box only under `if self.is::<T>()`, else gives it back -/
+def downcastBoxGuarded : Bool := {db_ok}
+/-- `write` asserts equal type ids before swapping the bytes of two values -/
+def writeAssertsSameType : Bool := {wr_ok}
+/-- number of places in `entry.rs` where something is cast to `EntryStorage<T>` -/
+def castSitesToTyped : Nat := {n_casts}
+/-- `UntypedHandle::downcast_ref` and `CacheEntry::into_inner` go through the guarded casts (`None` / panic otherwise) -/
+def publicViewsUseGuardedCasts : Bool := {}
+
+", uh_ok && ii_ok))
+}
+
 pub fn gen(ctx: &mut Ctx) -> Result<String, String> {
     let mut out = String::from("import AmVerif.Model.Core\n\nnamespace AmVerif.Gen\nopen AmVerif.Model\n\n/-- `error::ErrorKind` -/\ninductive EK\n  | noDefault\n  | io (e : IoErr)\n  | conv (tag : String)\n  deriving DecidableEq, Repr\n\n");
     out.push_str(&gen_error_or(ctx)?);
@@ -370,6 +448,7 @@ pub fn gen(ctx: &mut Ctx) -> Result<String, String> {
     out.push_str(&gen_conditions(ctx)?);
     out.push_str("/-- `usize::next_power_of_two` (smallest power of two ≥ n; 1 for 0) -/\ndef nextPow2Aux : Nat → Nat → Nat → Nat\n  | 0, p, _ => p\n  | f + 1, p, n => if p ≥ n then p else nextPow2Aux f (2 * p) n\ndef nextPow2 (n : Nat) : Nat := nextPow2Aux n 1 n\n\n");
     out.push_str(&gen_shards(ctx)?);
+    out.push_str(&gen_casts(ctx)?);
     out.push_str("end AmVerif.Gen\n");
     Ok(out)
 }
